@@ -303,7 +303,11 @@ def build():
         from netqasm.backend.executor import Executor as _E
         L = 5 if ctx.tier == "thorough" else 4
         ops = [("qalloc", a, v) for a in (0, 1) for v in (0, 1)] + [("qfree", a, v) for a in (0, 1) for v in (0, 1)] + \
-              [("keep", a, v, p) for a in (0, 1) for v in (0, 1) for p in (0, 1, 2)]
+              [("keep", a, v, p) for a in (0, 1) for v in (0, 1) for p in (0, 1, 2)] + \
+              [("req", a, v) for a in (0, 1) for v in (0, 1)] + [("resp", a, p) for a in (0, 1) for p in (3, 4)]
+        # "req": application a executes a recv_epr for one pair into virtual qubit v;  "resp": the link layer delivers a keep pair for
+        # application a's purpose on a physical qubit that is unused at that moment -- through the REAL _handle_epr_response, i.e. through the
+        # list of pending responses (a response may arrive before its request and wait there)
         given = ctx.given.get("history") if getattr(ctx, "given", None) else None
         seqs = [[tuple(int(x) if x.lstrip("-").isdigit() else x for x in o.split(":")) for o in given.split(",")]] if given else itertools.product(ops, repeat=L)
         n = 0
@@ -311,6 +315,8 @@ def build():
             n += 1
             ex = new_executor(ctx, apps=(0, 1), um_sizes={0: 2, 1: 2})
             sids = {0: SID, 1: SID_OTHER}
+            nreq = {0: 0, 1: 0}
+            from netqasm.qlink_compat import ReturnType as _RT
             ex._subroutines[SID] = Subroutine(app_id=0)
             ex._subroutines[SID_OTHER] = Subroutine(app_id=1)
             bad = None
@@ -322,6 +328,21 @@ def build():
                         ex._allocate_physical_qubit(sids[op[1]], op[2])
                     elif op[0] == "qfree":
                         list(ex._free_physical_qubit(sids[op[1]], op[2]) or [])
+                    elif op[0] == "req":
+                        a = op[1]
+                        nreq[a] += 1
+                        qaddr, eaddr = 100 + nreq[a], 200 + nreq[a]
+                        ex._app_arrays[a]._arrays[qaddr] = [op[2]]
+                        ex._app_arrays[a]._arrays[eaddr] = [None] * 10
+                        ex._epr_recv_requests[(1, a)].append(EprCmdData(subroutine_id=sids[a], ent_results_array_address=eaddr, q_array_address=qaddr,
+                                                                        request=None, tot_pairs=1, pairs_left=1))
+                        ex._handle_pending_epr_responses()
+                    elif op[0] == "resp":
+                        busy = used | {r.logical_qubit_id for r in ex._pending_epr_responses}
+                        if op[2] in busy:
+                            continue
+                        ex._handle_epr_response(LinkLayerOKTypeK(type=_RT.OK_K, logical_qubit_id=op[2], directionality_flag=1, purpose_id=op[1], remote_node_id=1,
+                                                                 bell_state=BellState.PHI_PLUS))
                     else:
                         if op[3] in used:
                             continue        # the link layer only delivers qubits that are free at that moment
@@ -334,6 +355,10 @@ def build():
                         bad = (k, "a refused operation changed the bookkeeping")
                         break
                 mapped = [p for a in (0, 1) for p in ex._qubit_unit_modules[a] if p is not None]
+                if len(ex._pending_epr_responses) != len({id(r) for r in ex._pending_epr_responses}) or \
+                        any(r.logical_qubit_id in mapped for r in ex._pending_epr_responses):
+                    bad = (k, f"a response that was handled is still pending (it will be applied again): pending={[r.logical_qubit_id for r in ex._pending_epr_responses]} mapped={mapped}")
+                    break
                 if len(set(mapped)) != len(mapped):
                     bad = (k, f"two virtual qubits share a physical qubit: {ex._qubit_unit_modules}")
                     break
@@ -348,7 +373,7 @@ def build():
         ctx.used["histories"] = n
         ctx.check("the representation invariant holds after every step of every short history", True)
     R.add("inv[all short histories of qalloc / qfree / keep-response]", kind="bounded", bounded_only=True, samples=1,
-          note="exhaustive over all sequences of 4 (quick) / 5 (thorough) operations from 20 on 2 applications x 2 virtual qubits x physical ids 0..2, real executor, native")(histories)
+          note="exhaustive over all sequences of 4 (quick) / 5 (thorough) operations from 28 (qalloc, qfree, direct keep delivery, recv request, response through the pending list) on 2 applications x 2 virtual qubits, real executor, native")(histories)
 
     def double_registration(ctx):
         ex = new_executor(ctx, apps=(0,))
